@@ -118,8 +118,8 @@ void h_run_pending(void)
 	for (i = 0; i < NEV; i++) {
 		if (g_freed[i])
 			continue;
-		__CPROVER_assert(IMPLIES(verif_in.pending[i], g_runs[i] >= 1), "[C08] every event that was pending when the run started, and was not unregistered, had its handler invoked");
-		__CPROVER_assert(IFF(g_owed[i], on_pending(v_e[i])), "[C08] a post made during the run is queued for the next run (and only such events are queued): nothing lost, nothing stale");
+		__CPROVER_assert(IMPLIES(verif_in.pending[i], g_runs[i] >= 1), "[C08,C11,C12,C13] every event that was pending when the run started, and was not unregistered, had its handler invoked");
+		__CPROVER_assert(IFF(g_owed[i], on_pending(v_e[i])), "[C08,C11,C12,C13] a post made during the run is queued for the next run (and only such events are queued): nothing lost, nothing stale");
 	}
 	CANARY();
 }
